@@ -248,6 +248,9 @@ class CInference(Inference):
             self.epistemic_state["vMin"] = dict()
         if "fMin" not in self.epistemic_state:
             self.epistemic_state["fMin"] = dict()
+        if "base_csp" in self.epistemic_state:
+            # preprocessing was done by an earlier instance on the same epistemic state
+            self.base_csp = self.epistemic_state["base_csp"]
 
     def encoding(self, etas: dict, vSums: dict, fSums: dict) -> list:
         """
@@ -384,6 +387,7 @@ class CInference(Inference):
         self.compile_constraint(deadline)
         # self._translation_start_belief_base()
         self.base_csp = self.translate()
+        self.epistemic_state["base_csp"] = self.base_csp
         # self._translation_end_belief_base()
         # print("Translation done")
 
